@@ -1,6 +1,6 @@
 #!/bin/bash
 # usage: eval_patch.sh <patch.diff> [properties...]
-# Applies a seeded change to /repo, runs the quick checks, prints the VIOLATION lines per property, and restores /repo.
+# Applies a seeded change to /repo, runs the quick checks (8 at a time), prints the VIOLATION lines per property, and restores /repo.
 set -u
 patch="$1"; shift
 props="${*:-C01 C02 C03 C04 C05 C06 C07 C08 C09 C10 C11 C12 C13 C14 C15 C16 C17 C18 C19 C20}"
@@ -10,13 +10,15 @@ if ! git apply "$patch"; then echo "patch does not apply"; exit 2; fi
 trap 'git -C /repo checkout -- . ' EXIT
 export GOFLAGS=-mod=mod GOPROXY=off GOSUMDB=off GOTOOLCHAIN=local
 go build ./... || { echo "BUILD FAILED"; exit 2; }
+tmp=$(mktemp -d /tmp/evalpatch.XXXXXX); mkdir -p $tmp/v; cp /verif/known_findings.json $tmp/v/
+echo $props | tr ' ' '\n' | xargs -P 8 -I{} sh -c "/verif/bin/larkcheck -property {} -tier quick -nocontrols -verif $tmp/v > $tmp/{}.out 2>&1"
 caught=""
 for p in $props; do
-  out=$(/verif/bin/larkcheck -property $p -tier quick -nocontrols -verif /tmp/evalverif 2>&1)
-  if echo "$out" | grep -q "^VIOLATION"; then
+  if grep -q "^VIOLATION" $tmp/$p.out; then
     caught="$caught $p"
     echo "== $p"
-    echo "$out" | grep -E "^(VIOLATED|UNDECIDED)" | cut -c1-400
+    grep -E "^(VIOLATED|UNDECIDED)" $tmp/$p.out | cut -c1-400
   fi
 done
+rm -rf $tmp
 echo "CAUGHT-BY:$caught"
